@@ -133,7 +133,7 @@ def kinds(case):
 
 
 def run(ctx, out, replay=None):
-    n = 1200 if ctx.quick() else 15000
+    n = 1200 if ctx.quick() else 10000
     out.rule = ("random netlist documents as for C05 (all module kinds and attribute combinations, nets of arity 2-6, "
                 "weights absent / 1 / other): 36% dyadic as drawn, 26% rewritten into an equally valid document on a boundary "
                 "(names null / true / yes / on / off / _ / area / Modules, names that are prefixes of each other, weights 1 / 1.0 "
@@ -158,15 +158,17 @@ def run(ctx, out, replay=None):
     for c in cases:
         for k in kinds(c):
             out.count("kind/" + k)
-    forms = {}
+    forms, seen_pairs = {}, []
 
     def run_impl(case):
         obs = nc.run_impl(case)
         forms[obs.get("via", "?")] = forms.get(obs.get("via", "?"), 0) + 1
+        seen_pairs.append((case, obs))
         return obs
     fr.run_cases(ctx, out, cases, run_impl, nc.to_coq, oracle, failure_key, HEADER,
                  dist_key=lambda c: c.get("stream", "?"), nontrivial=nontrivial, shard=100, shrink=nc.shrink)
     out.extra["input_forms"] = forms
+    nc.reason_stat(ctx, out, seen_pairs[:len(cases)])
     out.extra["near_miss_tags"] = sorted({c["tag"] for c in cases if c.get("stream") == "near-miss"})
     for f in out.failures:      # a shrunk input is filed under the failure it shows
         f["key"] = failure_key(None, f.get("why"))
